@@ -26,6 +26,8 @@ EXPLANATION = (
   ' (SWAP) End Of Caption exchanges the buffered and the displayed caption: after the branch each holds what the other held;'
   ' (COPY-lines) roll-up carries the caption lines over into the new caption as copies, never the line objects themselves;'
   ' (FIN-rollup) the number of lines kept when a roll-up caption rolls is depth - 1 for every depth RU2, RU3, RU4;'
+  ' (STYLE-complete) wherever the context replaces one of colour / italics / underline unconditionally it replaces all three, so an attribute switched off by a PAC or a first mid-row code does not leak onto later text;'
+  ' (FIN-parse) a parsed SMPTE label counts at the rate it was given (`:`), or at the matching drop-frame rate (`;`): see C12;'
 )
 RULE_TEXT = "per code class, per control code, per decoder-state call, per style property x caption style"
 UNDECIDED = ["everything the statement says about *what is displayed when*: pop-on flip, roll-up window depth, paint-on accumulation, cursor / backspace arithmetic, "
@@ -304,6 +306,33 @@ def check_copy_lines(ctx):
             f"copy_lines loses {'the text ' if not has_text else ''}{'the style properties ' if not style_loop else ''}{'the row / indent ' if not pos else ''}of the rows it carries forward: painted rows change appearance when the next PAC arrives")
 
 
+def check_attribute_sets(ctx):
+  """STYLE-complete: colour, italics and underline travel together (a PAC and the first mid-row code of a
+  sequence each carry all three; `no underline` is information too).  In every statement list of the
+  context that assigns one of current_color / current_font_style / current_text_decoration
+  unconditionally together with a second one, the third is assigned unconditionally as well - an
+  attribute that is only assigned under a test keeps its old value and leaks onto the following text."""
+  ix = ctx.ix
+  c = ix.cls("ttconv.scc.context:SccContext")
+  ctx.unit(c.module)
+  attrs = ("current_color", "current_font_style", "current_text_decoration")
+  n = 0
+  for name, m in sorted(c.methods.items()):
+    blocks = [m.node.body] + [getattr(x, fld) for x in own_nodes(m.node) for fld in ("body", "orelse") if isinstance(getattr(x, fld, None), list) and getattr(x, fld) and isinstance(getattr(x, fld)[0], ast.stmt)]
+    for b in blocks:
+      direct = {t.attr for st in b if isinstance(st, ast.Assign) for t in st.targets if isinstance(t, ast.Attribute) and unparse(t.value) == "self" and t.attr in attrs}
+      if len(direct) < 2:
+        continue          # a single attribute updated on its own (`if color is not None: ...`) merges one attribute, it does not replace the set
+      n += 1
+      missing = [a for a in attrs if a not in direct]
+      nested = [a for a in missing if any(isinstance(t, ast.Attribute) and isinstance(t.ctx, ast.Store) and t.attr == a for st in b for t in ast.walk(st))]
+      ctx.check(not missing, "STYLE-complete", f"{m.qualname}|{'+'.join(sorted(direct))} at +{b[0].lineno - m.node.lineno}", ctx.where(m.module, b[0]),
+                "colour, italics and underline are replaced together",
+                f"{m.short} replaces {sorted(direct)} unconditionally but {missing} " + ("only under a test" if nested else "not at all") +
+                ": the attribute keeps its previous value (e.g. underline stays on after a code that switches it off)")
+  ctx.floor("STYLE-complete", "statement lists that replace the current attributes", n, 2)
+
+
 def run(ctx):
   ix = ctx.ix
   check_dispatch(ctx)
@@ -333,4 +362,7 @@ def run(ctx):
   from . import c12 as _c12
   _c12.check_drop_frame_labels(ctx)
   common.check_item_handlers(ctx, ["ttconv.scc.reader", "ttconv.scc.line", "ttconv.scc.context", "ttconv.scc.word"])
+  check_attribute_sets(ctx)
+  from . import c12 as _c12
+  _c12.check_parse_rate(ctx)
   common.check_history_independence(ctx, [n for n in ctx.ix.modules if n.startswith("ttconv.scc")] + ["ttconv.time_code"])
